@@ -3,6 +3,7 @@ import AwModel.Store.Memory
 import AwModel.Store.Peewee
 import AwModel.Store.HbLoop
 import AwModel.Store.Codec
+import AwModel.Store.Migrate
 import Driver.Proto
 /-!
 Driver area `store <backend> <op> …` (stateful). D = String (canonical JSON text of the data).
@@ -53,6 +54,13 @@ def roundWin (st en : Option Int) : Option Int × Option Int :=
 /-- a request: `(state, answer)`; a parse failure leaves the state alone -/
 def handle (s : DrvSt) : List String → DrvSt × String
   | "reset" :: _ => ({}, "ok")
+  | "migrate" :: _ =>
+    -- migrate the peewee state into a fresh sqlite state
+    match Migrate.migrate s.pw {} with
+    | .ok q => ({ s with sq := q }, "ok")
+    | .error e => (s, showErr e)
+  | "trigger" :: t :: n :: c :: files =>
+    (s, "ok " ++ showBool (Migrate.triggers (t == "1") (n == "1") (c == "1") (files.filterMap unhex)))
   | be :: op :: r =>
     let run (p : P (DrvSt × String)) : DrvSt × String :=
       match p.run r with
